@@ -762,3 +762,14 @@ Proof.
     intros a H. vm_compute in H. inversion H; subst. vm_compute. repeat split; repeat constructor.
   - vm_compute. reflexivity.
 Qed.
+
+Lemma in_memory_no_file_access C dk sh a idx :
+  snd (sub C dk (InMem sh a) idx) = [] /\ snd (realise C dk (InMem sh a)) = [].
+Proof. split; reflexivity. Qed.
+
+Lemma h5_reads_increasing l :
+  increasing (uniq_sorted l) = true /\ forall x, In x l -> In x (uniq_sorted l).
+Proof. split; [apply uniq_sorted_increasing|intros x; apply uniq_sorted_in]. Qed.
+
+Lemma backends_agree dk h ops : run cfg_nc4 dk h ops = run cfg_h5 dk h ops.
+Proof. apply run_blind. apply same_backend_nc4_h5. Qed.
